@@ -141,7 +141,7 @@ def call_op(case, A, B, number, large_angles=True):
 UNARY_PROPS = {"x", "y", "rho", "rho2", "phi", "z", "theta", "eta", "costheta", "cottheta", "mag",
                "mag2", "t", "t2", "tau", "tau2", "beta", "gamma", "rapidity", "Et", "Et2", "Mt", "Mt2"}
 MOMENTUM_ONLY = {"Et", "Et2", "Mt", "Mt2"}
-BINARY = {"add", "subtract", "cross", "dot", "deltaphi", "deltaangle", "deltaeta", "deltaR", "deltaR2",
+BINARY = {"equal", "not_equal", "isclose", "add", "subtract", "cross", "dot", "deltaphi", "deltaangle", "deltaeta", "deltaR", "deltaR2",
           "deltaRapidityPhi", "deltaRapidityPhi2", "boost_p4", "boost_beta3", "boostCM_of_p4",
           "boostCM_of_beta3", "boost", "boostCM_of"}
 ANGLE_VALUED = {"phi", "deltaphi"}
@@ -232,7 +232,7 @@ def result_kind(op):
     if op in UNARY_PROPS or op in ("abs", "square", "np_sqrt", "np_cbrt", "np_power", "dot", "deltaphi", "deltaangle", "deltaeta", "deltaR",
                                    "deltaR2", "deltaRapidityPhi", "deltaRapidityPhi2"):
         return "num"
-    if op.startswith("is_"):
+    if op.startswith("is_") or op in ("equal", "not_equal", "isclose"):
         return "bool"
     return "vec"
 
@@ -371,6 +371,8 @@ def run_case(case, classes, number, tier, mode, tol):
         is_canon = (sa, sb) == canon
         blame = "C02" if is_canon else "C01"
         if rk == "bool":
+            if op in ("equal", "not_equal") and case["a"] == case["b"] and sa != sb:
+                continue      # exact equality of one vector stored in two systems is decided by rounding
             if exp != "either":
                 compared += 1
                 want = exp == "T"
@@ -472,6 +474,10 @@ def worker(args):
         tol = F64_TOL
     out = {"cases": 0, "calls": 0, "compared": 0, "records": [], "hits": {}, "nontrivial": 0}
     import numpy
+    from . import dispatchcov
+
+    dispatchcov.install()
+    before = dispatchcov.snapshot()
 
     for case in chunk:
         with numpy.errstate(all="ignore"):
@@ -489,6 +495,8 @@ def worker(args):
             r["mode"] = mode
             r["strata"] = strata(case)
             out["records"].append(r)
+    after = dispatchcov.snapshot()
+    out["dispatch"] = {k: after[k] - before.get(k, 0) for k in after}
     return out
 
 
@@ -499,11 +507,13 @@ def replay(cases, tier="quick", mode="mp", procs=16):
     chunks = [cases[i::n * 4] for i in range(n * 4)]
     chunks = [c for c in chunks if c]
     ctx = mp.get_context("fork")
-    total = {"cases": 0, "calls": 0, "compared": 0, "records": [], "hits": {}, "nontrivial": 0}
+    total = {"cases": 0, "calls": 0, "compared": 0, "records": [], "hits": {}, "nontrivial": 0, "dispatch": {}}
     with ctx.Pool(n) as pool:
         for out in pool.imap_unordered(worker, [(c, tier, mode) for c in chunks]):
             for k in ("cases", "calls", "compared", "nontrivial"):
                 total[k] += out[k]
+            for k, v in out.get("dispatch", {}).items():
+                total["dispatch"][k] = total["dispatch"].get(k, 0) + v
             total["records"] += out["records"]
             for k, v in out["hits"].items():
                 total["hits"][k] = total["hits"].get(k, 0) + v
